@@ -46,15 +46,15 @@ Print Assumptions C11_runner_history_independent.
 
 (* ... namely the run of the definition with the frozen parameters at their build-time values and
    the dynamic ones at their run-time values (staged_env is the meaning of ComputeGraph.freeze by
-   C09_staging); the derived-output functions, whose graph is not frozen, see the run-time values
-   with the build-time values of the non-dynamic parameters as fallback *)
+   C09_staging); the derived-output functions, whose graph is not frozen, see the same values: the
+   build-time values of the non-dynamic parameters first, the run-time values for the rest (C09_derived_env_consistent) *)
 Theorem C11_runner_meaning :
   forall (O : NumOps) m p0 dyn s m' r p,
     get_runner m p0 (Some dyn) s = Ok (m', r) -> missing r p = [] ->
     runner_run O r p =
       run_model_gen O m' s
         (staged_env O dyn (fun k => assoc k (p0 ++ m_defaults m')) (env_of O (p ++ m_defaults m')))
-        (env_of O ((p ++ m_defaults m') ++ filter (fun kv => negb (mem_str (fst kv) dyn)) (p0 ++ m_defaults m'))).
+        (env_of O (filter (fun kv => negb (mem_str (fst kv) dyn)) (p0 ++ m_defaults m') ++ (p ++ m_defaults m'))).
 Proof. exact runner_run_meaning. Qed.
 Print Assumptions C11_runner_meaning.
 
